@@ -237,7 +237,7 @@ pub fn run(ctx: &Ctx) {
      items (3 samples, 4 near misses, 1 unrelated), each encoded three times (canonical + two random choices of head \
      width, indefinite length, string chunking, float width). Oracle: vcore::sem over the CBOR data model; all three \
      encodings must get the oracle's verdict. Non-trivial: the oracle entered an array or map and touched >= 2 construct \
-     kinds, or a non-canonical encoding was used on a composite item; distinct = distinct (schema text, second encoding).",
+     kinds, or a non-canonical encoding was used on a composite item; distinct = distinct (schema text, second encoding). Sub-check small_scope: the exhaustive small grammar of C01 plus integer keys, a uint-keyed table and a byte string x 39 data items, each in three encodings.",
   );
   ctx.assume("float16/32/64 names are not generated: they are defined by the encoding, which the property says must not matter");
   ctx.assume("maps with duplicate keys are not asserted here (C10 covers them)");
@@ -263,6 +263,32 @@ pub fn run(ctx: &Ctx) {
       eval_cbor(ctx, "core_cbor", &case.schema, &case.text, doc, kind, t, st, &excl)?;
     }
     Ok(())
+  });
+  // exhaustive small scope (shared with C01, plus integer keys and a byte string): each pair with the canonical and
+  // two knob-driven encodings (the knobs of a pair are derived from its index)
+  let pairs: Vec<(usize, vcore::cmodel::Schema, String, CVal)> = {
+    let docs = crate::smallscope::documents(true);
+    let mut v = vec![];
+    for s in crate::smallscope::schemas(&o, true) {
+      let text = vcore::cmodel::render(&s);
+      for d in &docs {
+        v.push((v.len(), s.clone(), text.clone(), d.clone()));
+      }
+    }
+    v
+  };
+  vcore::sweep(ctx, "small_scope", &pairs, |(i, s, text, d), st| {
+    let mut x = (*i as u64).wrapping_mul(0x9E3779B97F4A7C15) | 1;
+    let words: Vec<u32> = (0..64)
+      .map(|_| {
+        x ^= x << 13;
+        x ^= x >> 7;
+        x ^= x << 17;
+        (x >> 20) as u32
+      })
+      .collect();
+    let mut t = Tape::new(&words);
+    eval_cbor(ctx, "small_scope", s, text, d, "sample", &mut t, st, &excl)
   });
   if survey_on() {
     survey_dump(ctx);
